@@ -10,12 +10,13 @@ block-inclusion paths for all h < r) and "c08chain" (the chains: block h produce
      merkle.MerkleProve against GetCrossStateRoot(h) (= header h+1's field) / header r's BlockRoot and must yield the stored
      record / block h's hash; roots and proof bytes are compared with the evaluated spec terms (drift if only those differ).
 """
-from checks.merkle_common import table, cfg_text, summary
+from checks.merkle_common import table, cfg_text, summary, load_replay
 
 
 def run(ctx):
     q = ctx.quick
     b = ctx.build("vd-merkle")
+    load_replay(ctx)
     K = 8 if q else 20
     rows = []
     for lab in ("id", "pairs", "same"):
